@@ -261,12 +261,15 @@ package proxy
 //@   ensures [C12] unsigned_on_failure_is_reported: result != nil ==> (@mapRequestToHashInput#1.1 != nil || @Sign#1.1 != nil)
 
 // The signing middleware: the request reaches the next handler only after the configured signatures were added
-// to this very request, and nothing covered changes between the RSA signature and the hand-over.
+// to this very request, and nothing covered changes between the RSA signature and the hand-over. The Content-Length the
+// upstream receives is written by the transport from req.ContentLength / req.TransferEncoding, not from the header
+// map the signature covers: the middleware must leave that framing as the server parsed it.
 //@ func newSigningHandler$1(rw http.ResponseWriter, req *http.Request)
 //@   modifies everything
 //@   sink [C12] forwarded_only_when_signed: ServeHTTP requires $arg0 == rw && $arg1 == req && (config.HMACAuth != nil ==> called(@SignRequest#1) && arg(@SignRequest#1, 1) == req) && (signer != nil ==> called(@Sign#1) && arg(@Sign#1, 1) == req && @Sign#1 == nil)
 //@   sink [C12] nothing_covered_changes_after_signing: ServeHTTP requires signer != nil ==> (forall k string :: (k in req.Header) == at(@Sign#1, (k in req.Header)) && req.Header[k] == at(@Sign#1, req.Header[k])) && req.Body == at(@Sign#1, req.Body) && req.URL.Path == at(@Sign#1, req.URL.Path) && req.URL.RawQuery == at(@Sign#1, req.URL.RawQuery)
 //@   sink [C12] body_arrives_intact: ServeHTTP requires (old(req.Body) == nil ==> req.Body == nil) && (old(req.Body) != nil ==> req.Body != nil && req.Body.$content == old(req.Body.$content))
+//@   sink [C12] content_length_framing_untouched: ServeHTTP requires req.ContentLength == old(req.ContentLength) && arrof(req.TransferEncoding) == old(arrof(req.TransferEncoding)) && len(req.TransferEncoding) == old(len(req.TransferEncoding))
 //@   ensures [C12] unsigned_is_refused: !called(@ServeHTTP#1) ==> rw.$status == 400 || old(rw.$status) != 0
 
 // The cookie is removed before anything is signed (the chain is deleteCookie -> sign -> timeout -> reverse proxy,
